@@ -258,10 +258,15 @@ def tasks(tier, seed):
     for p in range(0, 4 if tier == "quick" else 6):
         for times in (1, 2, 3):
             ts.append((task_bezier_sym, (p, times)))
+    from . import kinds
+    ts += [(kinds.task_kinds, ("C06", op)) for op in kinds.OPS["C06"][1]]
     return ts
 
 
 def replay(o):
+    if (o.get("witness") or {}).get("kind") == "kinds":
+        from . import kinds
+        return kinds.replay(o)
     if (o.get("witness") or {}).get("kind") == "c06.order":
         w = o["witness"]
         r = [x for x in task_order() if "id" in x and x["id"].endswith(":after-%s-run[%s,t=%d]" % (w["first"], w["case"], w["t"]))][0]
